@@ -46,7 +46,7 @@ def check_int(vlq, n, bag):
         bag.add(sig('decode-raises-' + type(ex).__name__, n), {'int': n},
                 repr(ex))
         return 0
-    if d != n or tuple(ds) != (n,):
+    if d != n or not isinstance(ds, (tuple, list)) or tuple(ds) != (n,):
         bag.add(sig('decode-encode-differs', n), {'int': n},
                 'decode(encode(x)) = %r / %r' % (d, ds))
         ok = 0
@@ -209,7 +209,12 @@ def run(tier, rep):
                     nfield += 2
 
     def norm(m):
-        return [[tuple(s) for s in line] for line in m]
+        try:
+            return [[tuple(s) for s in line] for line in m]
+        except TypeError:
+            # not a list of lists of sequences: an observation, not a
+            # harness fault
+            return ('malformed', repr(m))
 
     def work_maps(items, idx):
         bag = VioBag()
